@@ -421,20 +421,36 @@ func (c *Ctx) bindDecoders() (params, formats *ssa.Function) {
 	if hb == nil {
 		return nil, nil
 	}
-	for _, ci := range core.Calls(hb) {
-		f := core.StaticCallee(ci)
-		if f == nil || !c.P.InPkg(f, "wire") || f.Signature.Results().Len() < 1 {
-			continue
-		}
-		if sl, ok := f.Signature.Results().At(0).Type().Underlying().(*types.Slice); ok {
-			switch {
-			case core.IsNamed(sl.Elem(), pkWire, "Parameter"):
-				params = f
-			case core.IsNamed(sl.Elem(), pkWire, "FormatCode"):
-				formats = f
+	var scan func(fn *ssa.Function, depth int)
+	scan = func(fn *ssa.Function, depth int) {
+		for _, ci := range core.Calls(fn) {
+			f := core.StaticCallee(ci)
+			if f == nil || !c.P.InPkg(f, "wire") || f.Signature.Results().Len() < 1 || len(f.Blocks) == 0 {
+				continue
+			}
+			if sl, ok := f.Signature.Results().At(0).Type().Underlying().(*types.Slice); ok {
+				switch {
+				case core.IsNamed(sl.Elem(), pkWire, "Parameter"):
+					if params == nil {
+						params = f
+					}
+				case core.IsNamed(sl.Elem(), pkWire, "FormatCode"):
+					if formats == nil {
+						formats = f
+					}
+				}
+				continue
+			}
+			// a helper that decodes the whole message and hands the fields back in a struct
+			if _, isStruct := f.Signature.Results().At(0).Type().Underlying().(*types.Struct); isStruct && depth > 0 && f.Signature.Recv() != nil {
+				scan(f, depth-1)
 			}
 		}
 	}
+	scan(hb, 1)
+	// a decoder that only hands its work on (returns a callee's results unchanged) stands for that callee
+	params = c.tailTarget(params, 2)
+	formats = c.tailTarget(formats, 2)
 	return
 }
 
@@ -515,6 +531,13 @@ func (c *Ctx) classifyFormat(fn *ssa.Function, v ssa.Value, kinds map[string]boo
 			} else {
 				kinds["unguarded-index"] = true
 			}
+		case *ssa.Parameter:
+			// handed in by the only caller: judged by what the caller passes
+			if a, caller := c.callerArg(x); a != nil {
+				c.classifyFormat(caller, a, kinds, depth+1)
+			} else {
+				kinds["other"] = true
+			}
 		case *ssa.Extract:
 			// a value returned by a decoding helper (the default format computed there)
 			call, ok := x.Tuple.(*ssa.Call)
@@ -542,6 +565,12 @@ func (c *Ctx) classifyFormat(fn *ssa.Function, v ssa.Value, kinds map[string]boo
 // isFormatSlice: v is the format-code slice decoded from this message: the make in fn, or the slice result
 // of a helper whose successful returns yield its own make.
 func (c *Ctx) isFormatSlice(fn *ssa.Function, v ssa.Value) bool {
+	if p, isParam := v.(*ssa.Parameter); isParam {
+		if a, caller := c.callerArg(p); a != nil {
+			return c.isFormatSlice(caller, a)
+		}
+		return false
+	}
 	if fc := c.fmtCtxOf(fn); fc.formats != nil && v == ssa.Value(fc.formats) {
 		return true
 	}
@@ -590,10 +619,18 @@ func (c *Ctx) c08ReadParameters(rp, np *ssa.Function) {
 	// format codes are stored in order (in this function or in the helper that decodes them)
 	nFmtStores := 0
 	cands := []*ssa.Function{rp}
-	for _, ci := range core.Calls(rp) {
-		if h := core.StaticCallee(ci); h != nil && c.P.InPkg(h, "wire") {
-			cands = append(cands, h)
+	addCallees := func(fn *ssa.Function) {
+		for _, ci := range core.Calls(fn) {
+			if h := core.StaticCallee(ci); h != nil && c.P.InPkg(h, "wire") && h != rp {
+				cands = append(cands, h)
+			}
 		}
+	}
+	addCallees(rp)
+	// when the values are decoded by a helper of a thin wrapper, the codes may be decoded by the wrapper's other helper
+	if sites := c.P.CallSitesOf(rp); len(sites) == 1 && c.tailTarget(sites[0].Parent(), 2) == rp {
+		cands = append(cands, sites[0].Parent())
+		addCallees(sites[0].Parent())
 	}
 	for _, fn := range cands {
 		fc := c.fmtCtxOf(fn)
@@ -987,4 +1024,57 @@ func lenEqEdges(fn *ssa.Function, x ssa.Value, k int64) []edge {
 		}
 	}
 	return out
+}
+
+// tailTarget follows "return helper(...)" wrappers: if every return of fn that can succeed hands on result #0 (and
+// the error) of one and the same static call, the callee is where the value is built.
+func (c *Ctx) tailTarget(fn *ssa.Function, depth int) *ssa.Function {
+	for ; fn != nil && depth > 0; depth-- {
+		var target *ssa.Function
+		ok := true
+		n := 0
+		for _, r := range returns(fn) {
+			cls := c.Err().Classify(errOperand(r), r.Block())
+			if !cls.MayBeNil() {
+				continue
+			}
+			n++
+			ex, isEx := forwardLoad(r.Results[0]).(*ssa.Extract)
+			if !isEx || ex.Index != 0 {
+				ok = false
+				break
+			}
+			call, isCall := ex.Tuple.(*ssa.Call)
+			if !isCall {
+				ok = false
+				break
+			}
+			h := core.StaticCallee(call)
+			if h == nil || !c.P.InPkg(h, "wire") || len(h.Blocks) == 0 || (target != nil && target != h) {
+				ok = false
+				break
+			}
+			target = h
+		}
+		if !ok || n == 0 || target == nil {
+			return fn
+		}
+		fn = target
+	}
+	return fn
+}
+
+// callerArg maps a parameter of a function with a single static call site to the argument passed there.
+func (c *Ctx) callerArg(p *ssa.Parameter) (ssa.Value, *ssa.Function) {
+	fn := p.Parent()
+	sites := c.P.CallSitesOf(fn)
+	if len(sites) != 1 {
+		return nil, nil
+	}
+	for i, q := range fn.Params {
+		if q == p && i < len(sites[0].Common().Args) {
+			return sites[0].Common().Args[i], sites[0].Parent()
+		}
+	}
+	return nil, nil
 }
